@@ -250,7 +250,7 @@ def run(ctx):
                 "compared. Non-trivial = pair of different descriptions; distinct by hash")
     ctx.assumptions = ["TLC's evaluation of the specification", "byte / utf8 element types and service types are not in the universe"]
     c02.run_cfg(ctx, "Values", "Values_pairs.cfg", pair_worker, "pairs")
-    c02.run_cfg(ctx, "Values", "Values_acc.cfg", acc_worker, "acc", mk=lambda blocks: [(b, ctx.seed) for b in blocks if ctx.tier != "quick" or hash(b) % 4 == 0])
+    c02.run_cfg(ctx, "Values", "Values_acc.cfg", acc_worker, "acc", mk=lambda blocks: [(b, ctx.seed) for b in blocks if ctx.tier != "quick" or core.sampled(b, 4)])
     c02.consume(ctx, core.pmap(expr_worker, [ctx.seed], procs=1), "expr")
     ctx.sample({"a": "struct X {uint8[<=35]}", "b": "struct X {uint8[<=36]; void8}", "verdict": "no or either by approximation"})
 
